@@ -33,7 +33,7 @@ def translate_liveness(repo):
         txt += 'Definition lv_%s_out : sx := %s.\n' % (v, e.result[v]['out'])
     txt += 'Definition lv_join_over_next : bool := %s.\n' % ('true' if e.join[0] == 'next' else 'false')
     txt += 'Definition lv_join_reads_in : bool := %s.\n' % ('true' if e.join[1] == 'in_' else 'false')
-    txt += 'Definition lv_changed_compares_in : bool := %s.\n' % ('true' if e.prev[1] == 'in_' else 'false')
+    txt += 'Definition lv_changed_compares_in : bool := %s.\n' % ('true' if 'in_' in e.compared_maps else 'false')
     txt += 'Definition lv_include_annotations : bool := %s.\n' % ('true' if dflt else 'false')
     return txt
 
